@@ -1,21 +1,8 @@
 import IpcHub.Lemmas.MediaCache
+import IpcHub.Spec.MediaKinds
 namespace IpcHub.Media
 
 /-! ### what the cache holds, as a function of the accepted history (C02) -/
-
-inductive PK where
-  | nonvideo | fault | vps | sps | pps | key | other
-  deriving DecidableEq, Repr
-
-/-- the cache's view of one packet taken alone: channel, classifier verdict, and the priority order of
-    CachePack (`key` here means: a key-frame SLICE packet) -/
-def pktKind (k : NalConsts) (hevc : Bool) (p : Pkt) : PK :=
-  if p.ch ≠ 0 then .nonvideo else
-  match (if hevc then classify265 k p.payload else classify264 k p.payload) with
-  | none => .fault
-  | some f =>
-    if hevc && f.vps then .vps else if f.sps then .sps else if f.pps then .pps
-    else if f.key then .key else .other
 
 /-- the suffix of a list starting at its LAST element satisfying `q` ([] if there is none) -/
 def suffixFromLast {α} (q : α → Bool) : List α → List α
@@ -47,32 +34,6 @@ theorem rev_ind {α} {P : List α → Prop} (h0 : P []) (hs : ∀ l a, P l → P
     | nil => exact h0
     | cons a r ih => simpa using hs _ a ih
   simpa using this l.reverse
-
-/-! #### key frames of several slice packets
-
-All packets of one access unit carry the same RTP timestamp.  A key-frame slice packet that
-follows a key-frame slice packet with the same timestamp continues that key frame: the cache
-treats it as an ordinary packet of the GOP (it does not restart the GOP and is not reported as a
-key-frame start).  `effKind` is the kind the cache acts on, given the run left by the history. -/
-
-/-- the key run after a packet: a key slice opens (or continues) a run with its timestamp, any
-    other slice packet ends it, packets that are not slices leave it alone -/
-def nextRun (k : NalConsts) (hevc : Bool) (run : Option Nat) (p : Pkt) : Option Nat :=
-  match pktKind k hevc p with
-  | .key => some p.ts
-  | .other => none
-  | _ => run
-
-/-- the kind the cache acts on -/
-def effKind (k : NalConsts) (hevc : Bool) (run : Option Nat) (p : Pkt) : PK :=
-  match pktKind k hevc p with
-  | .key => if run = some p.ts then .other else .key
-  | x => x
-
-/-- the history annotated with effective kinds -/
-def ann (k : NalConsts) (hevc : Bool) : Option Nat → List Pkt → List (Pkt × PK)
-  | _, [] => []
-  | run, p :: ps => (p, effKind k hevc run p) :: ann k hevc (nextRun k hevc run p) ps
 
 def runAfter (k : NalConsts) (hevc : Bool) : Option Nat → List Pkt → Option Nat
   | run, [] => run
